@@ -20,7 +20,7 @@ LEAN_MODULES = ["NiftyVerif.Core.Proto", "NiftyVerif.Model.RVec", "NiftyVerif.Mo
 DRIVER = "Driver/C17.lean"
 OBLIGATIONS = ["NiftyVerif.C17." + t for t in (
     "ncg_never_uphill", "static_ncg_never_uphill", "static_ncg_eq_eager", "line_search_accepts_first",
-    "negcurv_progress", "trust_never_uphill", "static_stack_eq_eager_stack", "trust_uphill_witness")]
+    "negcurv_progress", "trust_never_uphill", "static_stack_eq_eager_stack", "old_rule_accepts_uphill", "zero_energy_args_differ")]
 RULE = ("objective family (quartic double well with couplings, Rosenbrock-like, convex, cubic-perturbed; trigonometric in the "
         "oracle-only stream) x dimension x pytree shape x start (positive / zero / negative curvature along the gradient) x "
         "iteration limits, absdelta, xtol; non-trivial = at least one Newton iteration with a non-zero gradient; distinct by "
@@ -120,10 +120,22 @@ def _kwargs(case, pinned=True):
         from nifty.re.conjugate_gradient import CGResults
         sc, inf = float(Fraction(case["cgfake"]["scale"])), int(case["cgfake"]["info"])
         kw["cg"] = lambda mat, j, *a, **k: CGResults(x=sc * j, nit=0, nfev=0, info=inf, success=inf == 0)
+    if case.get("erf", "default") != "default":
+        kw["energy_reduction_factor"] = None if case["erf"] is None else float(Fraction(case["erf"]))
+    if case.get("old_fval") is not None:
+        kw["old_fval"] = float(Fraction(case["old_fval"]))
     if pinned and case.get("cg") is not None:
         cg = case["cg"]
-        kw["cg_kwargs"] = {"norm_ord": 2, "absdelta": None, "resnorm": float(Fraction(cg["resnorm"])),
-                           "miniter": cg.get("miniter"), "maxiter": cg.get("maxiter")}
+        ck = {}
+        if cg.get("pin_res", True):       # cg_kwargs pin the CG configuration modelled in C15: norm_ord=2, fixed resnorm
+            ck.update({"norm_ord": 2, "absdelta": None, "resnorm": float(Fraction(cg["resnorm"]))})
+        elif cg.get("norm_ord", "1") == "inf":
+            ck["norm_ord"] = float("inf")
+        for k in ("miniter", "maxiter"):
+            if cg.get(k) is not None or cg.get("pin_res", True):
+                ck[k] = cg.get(k)
+        if ck:
+            kw["cg_kwargs"] = ck
     return kw
 
 
@@ -197,12 +209,17 @@ def _model_line(case):
     fin = np.finfo(np.float64)
     n = len(case["x0"])
     cg = case["cg"]
+    pin = bool(cg.get("pin_res", True))
+    erf = case.get("erf", "default")
     return {"op": "ncg", "x0": case["x0"], "poly": case["poly"],
             "cgfake": case.get("cgfake"),
             "miniter": 0 if case.get("miniter") is None else case["miniter"],
             "maxiter": 200 if case.get("maxiter") is None else case["maxiter"],
             "absdelta": case.get("absdelta"), "xtol": rs(Fraction(case["xtol"]) * n),
-            "cg": {"resnorm": cg["resnorm"], "miniter": cg.get("miniter"), "maxiter": cg.get("maxiter"),
+            "erf": rs(0.1) if erf == "default" else erf, "old_fval": case.get("old_fval"),
+            "cg": {"norm_ord": "2" if pin else cg.get("norm_ord", "1"), "pin_res": pin, "pin_abs": pin,
+                   "resnorm": cg.get("resnorm") if pin else None, "absdelta": None,
+                   "miniter": cg.get("miniter"), "maxiter": cg.get("maxiter"),
                    "tiny": rs(6.0 * float(fin.tiny)), "eps": rs(6.0 * float(fin.eps)), "tol": rs(1e-5)}}
 
 
@@ -246,6 +263,16 @@ def _trace_robust(case, m):
     return True
 
 
+def _disc_m(o):
+    return ("error",) if "error" in o else (o["status"], o["nit"])
+
+
+def _xclose_m(xa, xb):
+    a, b = [_fl(v) for v in xa], [_fl(v) for v in xb]
+    sc = max([abs(v) for v in a] + [1.0])
+    return all(abs(u - v) <= 1e-4 * sc for u, v in zip(a, b))
+
+
 def _close(xr, xm, tol=XTOL):
     xm = [_fl(v) for v in xm]
     sc = max([abs(v) for v in xm] + [1.0])
@@ -253,7 +280,22 @@ def _close(xr, xm, tol=XTOL):
 
 
 # ------------------------------------------------------------------------------------------------ trust-region tie
+_TMEMO = {}
+
+
 def _run_trust_recorded(case):
+    """memoised: the trust-region tie and the oracle share one real run per case"""
+    import json
+    key = json.dumps({k: case.get(k) for k in ("poly", "trig", "x0", "maxiter", "absdelta", "trust_radius", "trust_maxiter")},
+                     sort_keys=True, default=str)
+    if key not in _TMEMO:
+        if len(_TMEMO) > 2000:
+            _TMEMO.clear()
+        _TMEMO[key] = _run_trust_recorded_(case)
+    return _TMEMO[key]
+
+
+def _run_trust_recorded_(case):
     """real `_trust_ncg` with a recording wrapper around the real sub-problem solver (host callback)"""
     _housekeeping()
     J = _jax()
@@ -268,7 +310,7 @@ def _run_trust_recorded(case):
         return r
     try:
         fun, x0, flat, _ = _mk(dict(case, split=0))
-        kw = {"maxiter": case.get("maxiter"), "subproblem": sub}
+        kw = {"maxiter": case.get("trust_maxiter", case.get("maxiter")), "subproblem": sub}
         if case.get("absdelta") is not None:
             kw["absdelta"] = float(Fraction(case["absdelta"]))
         if case.get("trust_radius") is not None:
@@ -289,7 +331,8 @@ def _flat_any(x):
 def _trust_model_line(case, rec):
     fin = np.finfo(np.float64)
     return {"op": "trust", "x0": case["x0"], "poly": case["poly"],
-            "maxiter": 200 if case.get("maxiter") is None else case["maxiter"], "absdelta": case.get("absdelta"),
+            "maxiter": 200 if case.get("trust_maxiter", case.get("maxiter")) is None
+            else case.get("trust_maxiter", case.get("maxiter")), "absdelta": case.get("absdelta"),
             "gtol": rs(1e-4), "maxTr": rs(1000.0), "initTr": rs(float(Fraction(case.get("trust_radius") or 1))),
             "eta": rs(0.15), "eps": rs(6.0 * float(fin.eps)),
             "subs": [{"step": [rs(float(v)) for v in np.atleast_1d(st)], "hits": h, "predF": rs(pf)} for st, h, pf in rec]}
@@ -362,7 +405,7 @@ def oracle(case):
     scale = abs(f0) + 1.0
     res = {}
     for variant in ("eager", "static") + (("trust",) if case.get("trust", True) and not case.get("cgfake") else ()):
-        o = _run_real(case, variant, None, pinned)
+        o = _run_trust_recorded(case)[0] if variant == "trust" else _run_real(case, variant, None, pinned)
         res[variant] = o
         if "error" in o:
             if o["error"] != "ValueError":
@@ -517,7 +560,8 @@ def _gen_case(rng, quick, modelled=True):
         x0 = [Fraction(rng.randint(-12, 12), 8) for _ in range(n)]
     case = {"op": "ncg", "family": family, "poly": poly, "x0": [rs(v) for v in x0], "split": rng.randint(0, n - 1) if n > 1 else 0,
             "miniter": rng.choice([None, None, 0, 1, 2]), "maxiter": rng.choice([1, 1, 2, 2, 3, 3, 4] if modelled else [1, 2, 3, 5, 8, None]),
-            "absdelta": None, "xtol": rs(rng.choice([1e-5, 1e-3, 1e-2, 1e-1])), "trust": True}
+            "absdelta": None, "xtol": rs(rng.choice([1e-5, 1e-3, 1e-2, 1e-1])),
+            "trust": (not quick) or rng.random() < 0.35, "trust_maxiter": rng.choice([1, 3, 6, 12])}
     if rng.random() < 0.4:
         case["absdelta"] = rs(rng.choice([1e-6, 1e-3, 1e-2, 1e-1, 1.0]))
     if rng.random() < 0.05:
@@ -639,6 +683,26 @@ def _gen_reset_case(rng):
     return None
 
 
+def _gen_default_case(rng):
+    """the minimiser's own CG settings (norm_ord 1/inf, resnorm = min(.5, sqrt(mag))*mag, absdelta from the energy history):
+    dimension 3-5 so that the inner CG is stopped by these criteria rather than by exact termination"""
+    family = rng.choice(["doublewell", "convex", "convex"])
+    n = rng.randint(3, 5)
+    poly = _gen_poly(rng, n, family)
+    x0 = [Fraction(rng.randint(-16, 16), 8) for _ in range(n)]
+    case = {"op": "ncg", "family": family, "poly": poly, "x0": [rs(v) for v in x0], "split": rng.randint(0, n - 1),
+            "miniter": rng.choice([None, 0, 1]), "maxiter": rng.choice([1, 2, 2, 3]), "absdelta": None,
+            "xtol": rs(rng.choice([1e-5, 1e-2])), "trust": False, "defaultcg": True,
+            "cg": {"pin_res": False, "norm_ord": rng.choice(["1", "1", "inf"]), "miniter": rng.choice([0, 1, 1, 2]),
+                   "maxiter": rng.choice([None, None, 2, 3])},
+            "erf": rng.choice(["default", "default", "default", None, rs(0.5)])}
+    if rng.random() < 0.5:
+        case["absdelta"] = rs(rng.choice([1e-3, 1e-1, 1.0, 10.0]))
+    if rng.random() < 0.25:
+        case["old_fval"] = rs(float(_pyval(poly, [float(v) for v in x0])) + rng.choice([0.5, 2.0, 10.0]))
+    return case
+
+
 def _gen_trust_case(rng):
     """targeted (1-D): the trust-region step is slightly uphill although a decrease is predicted: rho in (-0.12, -0.02)"""
     for _ in range(200):
@@ -702,8 +766,28 @@ def _load_corpus():
 
 def _check(ctx, cases):
     mod = [c for c in cases if c.get("cg") is not None and c.get("poly")]
-    outs = ctx.model(DRIVER, [_model_line(c) for c in mod]) if mod else []
-    mo = {id(c): o for c, o in zip(mod, outs)}
+    lines, where = [], {}
+    for c in mod:
+        where[id(c)] = len(lines)
+        lines.append(_model_line(c))
+        if c.get("defaultcg"):      # the inner CG's own decisions must be robust: thresholds scaled by (1 ± 4e-6)
+            lines.append(dict(_model_line(c), pert=rs(Fraction(1) + Fraction(4, 10 ** 6))))
+            lines.append(dict(_model_line(c), pert=rs(Fraction(1) - Fraction(4, 10 ** 6))))
+    outs = ctx.model(DRIVER, lines) if lines else []
+    mo = {}
+    for c in mod:
+        k = where[id(c)]
+        m = outs[k]
+        if c.get("defaultcg") and "eager" in m:
+            same = all("eager" in o and _disc_m(o["eager"]) == _disc_m(m["eager"]) and _disc_m(o["static"]) == _disc_m(m["static"])
+                       and len(o["trace"]) == len(m["trace"])
+                       and all(a is not None and b is not None and len(a["trials"]) == len(b["trials"])
+                               for a, b in zip(o["trace"], m["trace"]))
+                       and ("x" not in m["eager"] or _xclose_m(o["eager"]["x"], m["eager"]["x"]))
+                       for o in (outs[k + 1], outs[k + 2]))
+            if not same:
+                m = dict(m, cg_fragile=True)
+        mo[id(c)] = m
     for c in cases:
         ctx.stat("family=" + c.get("family", "?"))
         ctx.stat("n=%d" % len(c["x0"]))
@@ -727,7 +811,9 @@ def _check(ctx, cases):
                         if not it["found"]:
                             ctx.stat("line_search_abort")
                 ctx.stat("model_status=%s" % m["eager"].get("status", "error"))
-                if not _trace_robust(c, m):
+                if c.get("defaultcg"):
+                    ctx.stat("default_cg_modelled")
+                if m.get("cg_fragile") or not _trace_robust(c, m):
                     ctx.skipped_near_threshold += 1
                 else:
                     for variant in ("eager", "static"):
@@ -751,11 +837,13 @@ def _check(ctx, cases):
 
 def run(ctx):
     cases = _load_corpus()
-    for _ in range(ctx.n(8, 50)):
+    for _ in range(ctx.n(6, 50)):
         cases.append(_gen_case(ctx.rng, ctx.quick, modelled=True))
-    for _ in range(ctx.n(3, 30)):
+    for _ in range(ctx.n(2, 30)):
         cases.append(_gen_case(ctx.rng, ctx.quick, modelled=False))
-    for _ in range(ctx.n(4, 24)):
+    for _ in range(ctx.n(3, 30)):
+        cases.append(_gen_default_case(ctx.rng))
+    for _ in range(ctx.n(3, 24)):
         c = _gen_reset_case(ctx.rng)
         if c is not None:
             cases.append(c)
@@ -768,8 +856,7 @@ def run(ctx):
     B = 40
     for a in range(0, len(cases), B):
         _check(ctx, cases[a:a + B])
-    tcases = [c for c in cases if c.get("poly") and not c.get("cgfake") and c.get("maxiter") != 0]
-    tcases = [dict(c, maxiter=ctx.rng.choice([1, 3, 6, 12])) if not c.get("trust_target") else c for c in tcases]
+    tcases = [c for c in cases if c.get("poly") and not c.get("cgfake") and c.get("maxiter") != 0 and c.get("trust", True)]
     _trust_tie(ctx, tcases[:ctx.n(6, 60)])
 
 
